@@ -262,6 +262,16 @@ class Pool(object):
             kmax = max((("omega0", c[0]) for c in cl["omega0"]), key=lambda k: ob["vals"][k][1])
             ob["vals"][kmax] = (ob["vals"][kmax][0], ob["vals"][kmax][1] + 0.37)
             self.inputs.append(ob)
+        # the second base input with every transition energy lowered by the lowest vacancy barrier (lowest barrier =
+        # 0): a different physical input whose scaled arrays equal what "work relative to the lowest barrier"
+        # arithmetic makes of the original
+        sh = clone(b1, "zero-min")
+        emin = min(sh["vals"][("omega0", c[0])][1] for c in cl["omega0"])
+        for k in list(sh["vals"]):
+            if k[0] in ("omega0", "omega1", "omega2"):
+                p_, e_ = sh["vals"][k]
+                sh["vals"][k] = (p_, e_ - emin)
+        self.inputs.append(sh)
         if nwyckoff > 1:
             # differs only in one vacancy-site energy (catches keys that ignore a field)
             w = clone(b0, "one-site-energy")
